@@ -3,6 +3,9 @@
 # tools/seedtest_par.sh (/tmp/r6logs/<Cxx>.log first pass, /tmp/r6logs/<Cxx>.final.log after strengthening).
 import json, os, re, shutil, sys
 SRC, LOGS, DST = "/tmp/r6", "/tmp/r6logs", "/verif/seeded"
+N = "1"
+if len(sys.argv) > 1:  # second batch: collect_seeds6.py 2
+    N = sys.argv[1]; SRC, LOGS = "/tmp/r6b", "/tmp/r6blogs"
 def parse(path):
     if not os.path.exists(path): return None
     t = open(path, errors="replace").read()
@@ -20,7 +23,7 @@ for p in sorted(os.listdir(SRC)):
     if not first: print("no result for", p); continue
     ok = first["clean"] == 0 and first["suite"] == 0 and first["demo"] != 0
     if not ok: print("NOT CONFIRMED", p, first); continue
-    d = os.path.join(DST, p + "-r6-1"); os.makedirs(d, exist_ok=True)
+    d = os.path.join(DST, p + "-r6-" + N); os.makedirs(d, exist_ok=True)
     shutil.copy(os.path.join(out, "patch.diff"), d); shutil.copy(os.path.join(out, "demo_test.go"), d)
     try: am = json.load(open(os.path.join(out, "meta.json")))
     except Exception as e: am = {"summary": "(agent meta unreadable: %s)" % e}
@@ -34,9 +37,9 @@ for p in sorted(os.listdir(SRC)):
             "final_pass": {"checks": (final or first)["checks"], "detected_by": detF},
             "detected_by": detF}
     json.dump(meta, open(os.path.join(d, "meta.json"), "w"), indent=1)
-    rows.append((p + "-r6-1", am.get("summary", "")[:160].replace("|", "/").replace("\n", " "), am.get("needs", "")[:200].replace("|", "/").replace("\n", " "), ", ".join(detF) or "-", "no" if det1 else "yes"))
+    rows.append((p + "-r6-" + N, am.get("summary", "")[:160].replace("|", "/").replace("\n", " "), am.get("needs", "")[:200].replace("|", "/").replace("\n", " "), ", ".join(detF) or "-", "no" if det1 else "yes"))
 idx = os.path.join(DST, "INDEX.md"); txt = open(idx).read()
-txt = "\n".join(l for l in txt.split("\n") if "-r6-" not in l).rstrip("\n") + "\n"
+txt = "\n".join(l for l in txt.split("\n") if ("-r6-" + N) not in l).rstrip("\n") + "\n"
 for r in rows: txt += "| %s | %s / needs: %s | yes | %s | %s |\n" % r
 open(idx, "w").write(txt)
 print(len(rows), "collected")
